@@ -17,10 +17,12 @@ package protocol
 //@   at-call RollbackTo assert[links-to-own-momentum] target != nil && target.Hash == head.PreviousHash && target.Height == head.Height - 1
 //@   at-call RollbackTo assert[rollback-window] target.Height <= ourFrontier.Height && ourFrontier.Height - target.Height <= 30
 //@   at-call RollbackTo assert[strictly-longer] tail.Height > ourFrontier.Height
-//@   at-call AddMomentumTransaction assert[verified-this-momentum] transaction#2 != nil && transaction#2.verified && transaction#2.Momentum == detailed.Momentum
-//@   at-call ForceAddAccountBlockTransaction assert[verified-this-block] transaction != nil && transaction.verified && transaction.Block == block
+//@   at-call AddMomentumTransaction assert[verified-this-momentum] transaction#1 != nil && transaction#1.verified && transaction#1.Momentum == detailed.Momentum
+//@   at-call ForceAddAccountBlockTransaction assert[verified-this-block] transaction#2 != nil && transaction#2.verified && transaction#2.Block == block
 //@   ensures[index-in-range] 0 <= n && n <= len(momentums)
 //@   ensures[success-reports-zero] err == nil ==> n == 0
+//@   ensures[no-rollback-unless-adopted] err != nil ==> c.chain.rollbacks == old(c.chain.rollbacks)
+//@   ensures[known-momentums-change-nothing] err == nil && old(forall i int :: 0 <= i && i < len(momentums) ==> iface("store.Momentum", c.chain.frontierStore).momentumAt[momentums[i].Momentum.Height] != 0 && ptr("*nom.Momentum", iface("store.Momentum", c.chain.frontierStore).momentumAt[momentums[i].Momentum.Height]).Hash == momentums[i].Momentum.Hash) ==> c.chain.rollbacks == old(c.chain.rollbacks) && c.chain.frontierStore == old(c.chain.frontierStore) && c.chain.momentumStoreAt == old(c.chain.momentumStoreAt)
 //@   loop 1
 //@     invariant 0 <= start && start <= len(momentums)
 //@   loop 2
